@@ -169,7 +169,8 @@ def main(tier, replay):
     if err:
         raise RuntimeError("in-kernel correspondence could not be evaluated:\n" + err)
     corr_broken = []
-    for (i, k) in failing:
+    # examine the smallest disagreeing schedules in detail (each costs a coqc run and re-runs)
+    for (i, k) in sorted(failing, key=lambda ik: len(json.dumps(scheds[ik[0]])))[:3]:
         s = scheds[i]
         cut = _truncate(s, min(len(s["bursts"]) - 1, max(b["burst"] for b in case_meta[i][:k + 1])))
         model = cl.predict([c for c in cases if c[0] == i][0], k, "c16")
